@@ -20,7 +20,9 @@ Definition key_eqb (a b : key) : bool :=
    do_not_queue, and whether the object is still allocated.  [o_live = false]
    is a link to a BusOwner whose reference count already dropped to zero (the
    object was handed back to its pool): every later use of it is a use after
-   free.  Only the broken restore hook produces such links. *)
+   free.  No modelled code path produces such a link any more (the restore
+   hook did, finding F14.1, fixed); the field stays so that a regression shows
+   up as DANGLING in the correspondence run instead of going unnoticed. *)
 Record owner := mkOwner { o_conn : N; o_allow : bool; o_dnq : bool; o_live : bool }.
 Definition queue := list owner.
 
